@@ -631,3 +631,38 @@ for _p in ('C16', 'C01', 'C02', 'C10', 'C09', 'C19'):
         nontrivial=(lambda o: lambda inp, out: ('hops=-' not in out and out.startswith('accept')) if is_e2e_line(inp) else o['nontrivial'](inp, out))(_old),
         rule=_old['rule'] + E2E_RULE,
     )
+
+
+# ---- C05 after a clear: the controlled-schedule runs of mode c20 end with clear() + the same rounds again; the statistics must be those of the
+# rounds since the clear under the configured limits (oracle tag C05); the lines are compared with the interleaving model as for C20
+_c05 = PROPS['C05']
+_c20p = PROPS['C20']
+PROPS['C05'] = dict(
+    _c05, modes=_c05['modes'] + [('hcore', 'c20')],
+    compare=lambda inp, a, b: _c20p['compare'](inp, a, b) if inp.startswith('c20') else _c05['compare'](inp, a, b),
+    nontrivial=lambda inp, o: _c20p['nontrivial'](inp, o) if inp.startswith('c20') else _c05['nontrivial'](inp, o),
+    rule=_c05['rule'] + ' || after Tracer::clear(): mode c20 re-applies the rounds after a clear and compares every getter with the recomputation over the rounds since (sample limit as configured)',
+)
+
+
+# ---- C16 "accepted configurations can run": the strategy-level runs (mode run: random accepted configurations incl. those that can send nothing)
+# and the fault scripts (mode faults: the sequence budget of a round used up exactly / almost / beyond) carry a C16 tag on every panic
+_c16b = PROPS['C16']
+PROPS['C16'] = dict(
+    _c16b, modes=_c16b['modes'] + [('hcore', 'run'), ('hcore', 'faults')],
+    compare=lambda inp, a, b: compare_run(inp, a, b) if inp.startswith('run ') else _c16b['compare'](inp, a, b),
+    nontrivial=lambda inp, o: run_nontrivial(inp, o) if inp.startswith('run ') else _c16b['nontrivial'](inp, o),
+    rule=_c16b['rule'] + ' || no panic once tracing has started: mode run (random builder-accepted configurations, incl. first_ttl > max_ttl and a window of zero probes, over simulated networks) and mode faults '
+                         '(bounded-exhaustive fault scripts, the 512-sequence budget of a TCP round used up exactly / almost / beyond)',
+)
+
+
+# ---- C03 at the byte level: the foreign quotations of mode recv (one identity facet of the quoted datagram differs; a foreign payload cut
+# inside the marker) must not pass the acceptance test of the strategy side (oracle tag C03)
+_c03b = PROPS['C03']
+PROPS['C03'] = dict(
+    _c03b, modes=_c03b['modes'] + [('hcore', 'recv')],
+    compare=lambda inp, a, b: compare_recv(inp, a, b) if is_recv_line(inp) else _c03b['compare'](inp, a, b),
+    nontrivial=lambda inp, o: recv_decoded(inp, o) if is_recv_line(inp) else _c03b['nontrivial'](inp, o),
+    rule=_c03b['rule'] + ' || foreign quotations through the real receive path (mode recv): another destination / protocol / port / trace identifier / payload marker, and a foreign payload quoted only up to a prefix of the marker, must fail the acceptance test',
+)
